@@ -15,6 +15,9 @@ import (
 	"github.com/ethereum/go-ethereum/crypto"
 )
 
+// maxBlocksPerQuery bounds the block range of a single eth_getLogs request
+const maxBlocksPerQuery = uint64(1000)
+
 var (
 	// event UpdateHashChainValue(bytes32 indexed newGlobalExitRoot, bytes32 indexed newHashChainValue);
 	insertGEREventSignature = crypto.Keccak256Hash([]byte("UpdateHashChainValue(bytes32,bytes32)"))
@@ -89,10 +92,15 @@ func (d *downloaderPP) Download(ctx context.Context, fromBlock uint64, downloade
 		default:
 		}
 
-		// Wait for new blocks before processing
-		fromBlock = d.WaitForNewBlocks(ctx, fromBlock)
-		for _, block := range d.GetEventsByBlockRange(ctx, fromBlock, fromBlock) {
-			downloadedCh <- *block
+		// Wait until fromBlock exists, then fetch every block up to the new tip: neither fromBlock itself
+		// nor the blocks produced between two polls may be skipped
+		lastBlock := d.WaitForNewBlocks(ctx, fromBlock-1)
+		for fromBlock <= lastBlock {
+			toBlock := min(fromBlock+maxBlocksPerQuery-1, lastBlock)
+			for _, block := range d.GetEventsByBlockRange(ctx, fromBlock, toBlock) {
+				downloadedCh <- *block
+			}
+			fromBlock = toBlock + 1
 		}
 	}
 }
